@@ -27,9 +27,23 @@ pub struct Program {
     pub entry_tasks: Vec<u8>,
     /// a second reloading thread (same reload again)
     pub two_reloaders: bool,
+    /// "slip" programs: the target has no rule at the start; one thread loads everything (target
+    /// rule included) while another loads the equal target rule for the resource alone and then
+    /// uses up its whole allowance (threshold 1 / one failure opens the breaker). Updates are
+    /// serialised, so in every order the allowance must stay used up after both have returned.
+    #[serde(default)]
+    pub slip: bool,
 }
 
 pub struct C11S;
+
+fn slip_rule(variant: u8, res: &str, id: &str) -> AnySpec {
+    match variant {
+        0 => AnySpec::Flow(FlowSpec::reject(id, res, 1.0, 3000)),
+        1 => AnySpec::Hot(HotspotSpec { id: id.into(), res: res.into(), metric: 1, ctrl: 0, index: 0, key: String::new(), threshold: 1, max_queue_ms: 0, burst: 0, duration_s: 1, capacity: 0, specific: vec![] }),
+        _ => AnySpec::Breaker(BreakerSpec { id: id.into(), res: res.into(), strategy: 2, retry_ms: 600_000, min_req: 1, interval_ms: 10_000, buckets: 1, max_rt: 0, threshold: 1.0 }),
+    }
+}
 
 fn target_rule(variant: u8, res: &str, id: &str) -> AnySpec {
     match variant {
@@ -73,7 +87,7 @@ impl Prop for C11S {
         crate::common::classify(self.id(), loc, msg)
     }
     fn rule_text(&self) -> &'static str {
-        "schedule part of C11: a target resource whose single rule rejects everything by its state (flow reject threshold 0, hotspot QPS threshold 0, or a breaker tripped Open with the retry timeout far away, clock frozen) is reloaded by one or two simulated threads (load-all or load-for-resource, equal target rule under a new id, unrelated resources changed) while 1-2 other simulated threads request entries on it, under our own seeded scheduler; every request must be rejected in every interleaving, also after the reload, and the breaker must still be Open. Non-trivial = execution with >= 1 preemption; distinct = distinct (schedule, outcome) hash."
+        "schedule part of C11: a target resource whose single rule rejects everything by its state (flow reject threshold 0, hotspot QPS threshold 0, or a breaker tripped Open with the retry timeout far away, clock frozen) is reloaded by one or two simulated threads (load-all or load-for-resource, equal target rule under a new id, unrelated resources changed) while 1-2 other simulated threads request entries on it, under our own seeded scheduler; every request must be rejected in every interleaving, also after the reload, and the breaker must still be Open. Slip programs: the target starts without a rule, one thread loads everything incl. the target's rule while another loads the equal rule for the target alone and then uses up its allowance (threshold 1, or one failure that opens the breaker); updates being serialised, the allowance must stay used up in every interleaving. Non-trivial = execution with >= 1 preemption; distinct = distinct (schedule, outcome) hash."
     }
     fn components(&self) -> Value {
         json!({"real": ["sentinel-core (mechanically rewritten copy): flow / hotspot / circuit-breaker managers, slots, EntryBuilder"],
@@ -96,7 +110,7 @@ impl Prop for C11S {
         let others_after = set(rng);
         let entry_tasks: Vec<u8> = (0..rng.range(1, 2)).map(|_| rng.range(1, 2) as u8).collect();
         let epoch_ns = slot_ns - slot_ns % (10 * SEC) + rng.range(100, 300) * MS;
-        let program = Program { variant, target: format!("c11s_{:x}", rng.below(0xffffff)), mode: rng.below(2) as u8, others_before, others_after, entry_tasks, two_reloaders: rng.chance(1, 4) };
+        let program = Program { variant, target: format!("c11s_{:x}", rng.below(0xffffff)), mode: rng.below(2) as u8, others_before, others_after, entry_tasks, two_reloaders: rng.chance(1, 4), slip: rng.chance(1, 3) };
         json!({"epoch_ns": epoch_ns, "schedule": gen_schedule(rng, 200), "program": program})
     }
 
@@ -105,6 +119,10 @@ impl Prop for C11S {
         let prog: Program = serde_json::from_value(scenario["program"].clone()).expect("program");
         cov.hit(["variant_flow_threshold0", "variant_hotspot_threshold0", "variant_breaker_open"][prog.variant as usize % 3]);
         cov.hit(if prog.mode == 0 { "reload_load_all" } else { "reload_load_for_resource" });
+        if prog.slip {
+            cov.hit("slip_two_updaters_then_use");
+            return execute_sched(self.id(), "", scenario, 60_000, cov, move |obs: Obs| slip_body(epoch_ns, &prog, obs));
+        }
         execute_sched(self.id(), "", scenario, 60_000, cov, move |obs: Obs| body(epoch_ns, &prog, obs))
     }
 
@@ -116,7 +134,7 @@ impl Prop for C11S {
             c["program"] = serde_json::to_value(p).unwrap();
             out.push(c);
         };
-        if prog.two_reloaders {
+        if prog.two_reloaders && !prog.slip {
             let mut p = prog.clone();
             p.two_reloaders = false;
             push(p);
@@ -147,6 +165,69 @@ fn request(res: &str) -> bool {
             true
         }
         Err(_) => false,
+    }
+}
+
+/// one request that uses up the target's allowance: admitted, and (breaker variant) completed with an error
+fn use_up(variant: u8, res: &str) -> bool {
+    match EntryBuilder::new(res.to_string()).with_args(Some(vec!["a".into()])).build() {
+        Ok(e) => {
+            if variant == 2 {
+                e.set_err(sentinel_core::Error::msg("simulated downstream failure"));
+            }
+            e.exit();
+            true
+        }
+        Err(_) => false,
+    }
+}
+
+fn slip_body(epoch_ns: u64, prog: &Program, obs: Obs) {
+    vc::set(epoch_ns);
+    let variant = prog.variant % 3;
+    let fam = [0usize, 2, 1][variant as usize];
+    let name = ["flow-threshold1", "hotspot-threshold1", "breaker-one-failure"][variant as usize];
+    fam::load_all(fam, &prog.others_before);
+    let used = Arc::new(Mutex::new(0u32));
+    let mut handles = vec![];
+    {
+        let prog = prog.clone();
+        handles.push(shuttle::thread::spawn(move || {
+            let mut all = prog.others_after.clone();
+            all.insert(0, slip_rule(variant, &prog.target, "t_all"));
+            fam::load_all(fam, &all);
+        }));
+    }
+    {
+        let prog = prog.clone();
+        let used = used.clone();
+        handles.push(shuttle::thread::spawn(move || {
+            let _ = fam::load_res(fam, &prog.target, &[slip_rule(variant, &prog.target, "t_res")]);
+            if use_up(variant, &prog.target) {
+                *used.lock().unwrap() += 1;
+            }
+        }));
+    }
+    for h in handles {
+        h.join().unwrap();
+    }
+    let u = *used.lock().unwrap();
+    obs.lock().unwrap().push(u as u64);
+    let after = request(&prog.target);
+    let open = if variant == 2 { cb::get_breakers_of_resource(&prog.target).iter().all(|b| b.current_state() == cb::State::Open) } else { true };
+    let n = fam::get_res(fam, &prog.target).map(|v| v.len()).unwrap_or(0);
+    fam::clear(fam);
+    if n == 0 {
+        oracle_fail!(format!("C11/sched/{}/rule-lost-by-concurrent-updates", name), "both updates carried the target's rule, none is reported afterwards");
+    }
+    if u == 0 {
+        oracle_fail!(format!("C11/sched/{}/fresh-rule-rejects-first-request", name), "the first request after loading the rule for the resource was rejected");
+    }
+    if after {
+        oracle_fail!(format!("C11/sched/{}/state-lost-by-concurrent-equal-update", name), "the allowance used after load-for-resource was forgotten when a concurrent load-all carrying the equal rule finished");
+    }
+    if !open {
+        oracle_fail!("C11/sched/breaker-one-failure/breaker-closed-by-concurrent-equal-update", "breaker opened after load-for-resource, Closed after a concurrent load-all with the equal rule finished");
     }
 }
 
